@@ -215,7 +215,7 @@ struct C03 : Scenario {
       return p;
    }
 
-   size_t search_count(int tier) const override { return tier == 0 ? 3000 : 300000; }
+   size_t search_count(int tier) const override { return tier == 0 ? 9000 : 300000; }
 
    Plan generate(uint64_t run_seed, int tier) const override
    {
